@@ -128,3 +128,11 @@ Theorem read_never_looks_outside_the_data_region :
     snd (read {| cap := cap s; wp := wp s; rp := rp s; mem := m' |} size) = snd (read s size).
 Proof. exact read_looks_only_inside_region. Qed.
 Print Assumptions read_never_looks_outside_the_data_region.
+
+(* Conservation of space in every reachable state: BytesReadable + BytesWriteable = capacity - 1. *)
+Theorem readable_plus_writeable_is_capacity_minus_one :
+  forall c ops, 2 <= c ->
+    let s := fst (run (create c) ops) in
+    bytes_readable s + bytes_writeable s = c - 1 /\ 0 <= bytes_readable s /\ 0 <= bytes_writeable s.
+Proof. exact space_conserved. Qed.
+Print Assumptions readable_plus_writeable_is_capacity_minus_one.
